@@ -175,6 +175,8 @@ type Scenario struct {
 	CropCols   []OutCol
 
 	ExtraArgs []string // extra key=value tokens on the batch line
+	// FileOverrides: key -> YAML value text that replaces (or adds) the key in config.yml (decoy values for C14)
+	FileOverrides map[string]string
 
 	// state injection plan (in-process monitors only)
 	Inject []Injection
